@@ -5,7 +5,9 @@
 // File, independent writers/readers/buffers sharing the process-wide pools,
 // one goroutine per ColumnWriter, concurrently filled row groups committed in
 // order, the asynchronous read mode with seeks, shared Schema/Encoding/Codec
-// values).  Every scenario first computes the serial result of the same work
+// values, independent typed writers/readers of the same Go row types over a
+// catalogue of row shapes - shapes.go -, independent writers with codec values
+// and options of their own - configs.go).  Every scenario first computes the serial result of the same work
 // (file bytes, canonical rows, index contents) and then runs it concurrently
 // and compares.  Goroutine bodies recover panics, every scenario instance runs
 // under a deadline, the events of the reference counted page buffers are
@@ -231,6 +233,10 @@ func runInst(c *core.Ctx, in inst) {
 	if aborted {
 		return
 	}
+	if isolated[in.Scenario] && !isChild && !in.Traced {
+		runIsolated(c, in, bucket, string(key))
+		return
+	}
 	if missed[in.Scenario] {
 		c.Note("%s skipped: the scenario missed its deadline before", bucket)
 		return
@@ -307,6 +313,91 @@ func runInst(c *core.Ctx, in inst) {
 		}
 		debug.SetGCPercent(gcOld)
 	}
+}
+
+// isolated scenarios run in a process of their own (this binary, replaying the
+// instance): the defects they look for - state shared by the closures cached
+// per type - end in "fatal error: concurrent map writes" as easily as in wrong
+// rows, and a fatal error of the Go runtime cannot be recovered; in a child it
+// is a finding about one instance instead of the end of the whole check.
+var isolated = map[string]bool{"H-row-shapes": true}
+
+var isChild = os.Getenv("VERIF_C15_CHILD") != ""
+
+var childSeq int
+
+// childResult is what is read of the result.json of a child process; replays
+// stay raw JSON (decoded into an any their 63-bit seeds would be rounded to
+// float64).
+type childResult struct {
+	Evaluations int     `json:"evaluations"`
+	Distinct    int     `json:"distinct_nontrivial"`
+	WallS       float64 `json:"wall_s"`
+	Violations  []struct {
+		Class  string          `json:"class"`
+		What   string          `json:"what"`
+		Replay json.RawMessage `json:"replay"`
+	} `json:"violations"`
+	Notes []string `json:"notes"`
+}
+
+func runIsolated(c *core.Ctx, in inst, bucket, key string) {
+	childSeq++
+	dir := filepath.Join(c.OutDir, fmt.Sprintf("child-%d", childSeq))
+	if c.OutDir == "" {
+		dir = filepath.Join(os.TempDir(), fmt.Sprintf("c15-child-%d-%d", os.Getpid(), childSeq))
+	}
+	_ = os.RemoveAll(dir)
+	if err := os.MkdirAll(dir, 0o755); err != nil {
+		c.Note("%s: cannot run in a child process: %v", bucket, err)
+		return
+	}
+	defer os.RemoveAll(dir)
+	req, _ := json.Marshal(map[string]any{"replay": in})
+	file := filepath.Join(dir, "instance.json")
+	if err := os.WriteFile(file, req, 0o644); err != nil {
+		c.Note("%s: cannot run in a child process: %v", bucket, err)
+		return
+	}
+	cmd := exec.Command(os.Args[0], "-tier", c.Tier, "-replay", file, "-out", dir, "-replays", dir)
+	cmd.Env = append(os.Environ(), "VERIF_C15_CHILD=1", "VERIF_C15_NORACE=1")
+	var stderr bytes.Buffer
+	cmd.Stdout, cmd.Stderr = io.Discard, &stderr
+	runErr := runWithDeadline(cmd, 3*time.Minute)
+	text := stderr.String()
+	if isRaceChild {
+		// the data race reports of the child belong to the reports of this process
+		os.Stderr.WriteString(text)
+	}
+	b, err := os.ReadFile(filepath.Join(dir, "result.json"))
+	var cr childResult
+	if err == nil {
+		err = json.Unmarshal(b, &cr)
+	}
+	if err != nil {
+		what := "ended abnormally: " + fmt.Sprint(runErr)
+		if i := strings.Index(text, "fatal error:"); i >= 0 {
+			what = strings.SplitN(text[i:], "\n", 2)[0]
+			text = text[i:]
+		} else if i := strings.Index(text, "panic:"); i >= 0 {
+			what = strings.SplitN(text[i:], "\n", 2)[0]
+			text = text[i:]
+		} else {
+			text = tail(text, 6<<10)
+		}
+		c.Violation("fatal-error", fmt.Sprintf("%s [P=%d]: the process running the scenario died: %s", in.Scenario, in.P, what), replayOf(in, core.Trunc(text, 6<<10)))
+		c.Case(bucket, key, false)
+		return
+	}
+	for _, v := range cr.Violations {
+		c.Violation(v.Class, v.What, v.Replay)
+	}
+	for _, n := range cr.Notes {
+		if len(c.Res.Notes) < 40 {
+			c.Note("%s", n)
+		}
+	}
+	c.Case(bucket, key, cr.Distinct > 0)
 }
 
 // ---------------------------------------------------------------------------
@@ -2637,9 +2728,11 @@ func raceRun(outDir string, seed int64) (res raceOutcome) {
 		}
 		return
 	}
-	var cr core.Result
+	var cr childResult
 	if err := json.Unmarshal(b, &cr); err == nil {
-		res.violations = append(res.violations, cr.Violations...)
+		for _, v := range cr.Violations {
+			res.violations = append(res.violations, core.Violation{Class: v.Class, What: v.What, Replay: v.Replay})
+		}
 		res.note = fmt.Sprintf("race build: %d scenario instances in %.0fs, %d data race reports, %d violations", cr.Evaluations, cr.WallS, res.nraces, len(cr.Violations))
 	}
 	return
@@ -2674,7 +2767,7 @@ func runWithDeadline(cmd *exec.Cmd, d time.Duration) error {
 
 func run(c *core.Ctx) {
 	c.Res.Exhaustive = false
-	c.Res.Rule = "stress exploration, not enumeration: for GOMAXPROCS in {1,2,4,16} every scenario instance draws a seed from the harness PRNG and derives everything from it (files of 500..3000 rows with a unique row id, optional, string, dictionary, byte array, list and double columns, pages of 64..256 bytes, 2-4 row groups, bloom filters, all six codecs, data pages v1/v2; gen.Case schemas for the writers; 4..36 goroutines with seeds of their own). Scenarios: A many goroutines on one File opened lazily (SkipPageIndex+SkipBloomFilters; index racers meet behind a barrier at every fresh chunk; plain, yielding and sleeping io.ReaderAt) or eagerly; B independent writers/readers/buffers; C one goroutine per ColumnWriter; D concurrently filled row groups committed in order; D-parent-pending programs of 1-2 rounds over 1-4 row groups (reused after Commit) in which the parent writer itself receives rows before, while and after the row groups are filled - through WriteRows, through its ColumnWriters (WriteRowValues, one goroutine per column) or through the typed Write, alone or mixed, with Flush calls - on NewGenericWriter[any]/NewWriter with gen.Case schemas and NewGenericWriter[T]/NewWriter with a struct type: besides serial = concurrent bytes, the row groups and rows read back must be those of the serial specification (pending rows are flushed before a committed row group; equal to what one writer produces from WriteRows/Flush alone and to commit_all of the extracted model), failing programs are shrunk on the serial run; E async read mode histories with seeks (storms ReadPage, [sleep|yield], SeekToRow far away [twice], ReadPage); F one fresh *Schema first used inside the race; G pages retained and handed to other goroutines; mixed = A+B+D+E+G at once. Each instance first computes the serial answer of the same work and compares bytes (sha256), canonical rows, page layout, index and bloom filter contents and pointer identity. A, E, G are also run alone with the buffer event sink installed; the traces are checked against the per-buffer reference counting automaton (and the extracted model). A case = one scenario instance; non-trivial = at least 2 worker goroutines ran and the compared output is non-empty; distinct by (scenario, GOMAXPROCS, seed, scale)."
+	c.Res.Rule = "stress exploration, not enumeration: for GOMAXPROCS in {1,2,4,16} every scenario instance draws a seed from the harness PRNG and derives everything from it (files of 500..3000 rows with a unique row id, optional, string, dictionary, byte array, list and double columns, pages of 64..256 bytes, 2-4 row groups, bloom filters, all six codecs, data pages v1/v2; gen.Case schemas for the writers; 4..36 goroutines with seeds of their own). Scenarios: A many goroutines on one File opened lazily (SkipPageIndex+SkipBloomFilters; index racers meet behind a barrier at every fresh chunk; plain, yielding and sleeping io.ReaderAt) or eagerly; B independent writers/readers/buffers; C one goroutine per ColumnWriter; D concurrently filled row groups committed in order; D-parent-pending programs of 1-2 rounds over 1-4 row groups (reused after Commit) in which the parent writer itself receives rows before, while and after the row groups are filled - through WriteRows, through its ColumnWriters (WriteRowValues, one goroutine per column) or through the typed Write, alone or mixed, with Flush calls - on NewGenericWriter[any]/NewWriter with gen.Case schemas and NewGenericWriter[T]/NewWriter with a struct type: besides serial = concurrent bytes, the row groups and rows read back must be those of the serial specification (pending rows are flushed before a committed row group; equal to what one writer produces from WriteRows/Flush alone and to commit_all of the extracted model), failing programs are shrunk on the serial run; E async read mode histories with seeks (storms ReadPage, [sleep|yield], SeekToRow far away [twice], ReadPage); F one fresh *Schema first used inside the race; G pages retained and handed to other goroutines; H independent writers/readers/buffers of the same Go row TYPES at once, over a catalogue of row shapes (" + shapeNames() + "): 2-6 workers per shape, all shapes at once, each worker with rows of its own through every path from Go values to a file and back (GenericWriter[T].Write, Writer.Write(any), GenericBuffer[T].Write, GenericReader[T].Read, Reader.Read(&row), Schema.Deconstruct/Reconstruct, Reconstruct into a destination with interface fields), with the implicit Schema (the one SchemaOf caches per type for the whole process) or an explicit fresh *Schema first used inside the race - file bytes and the Go values read back (canonical JSON) equal the worker's serial run, failures shrunk to the shape alone / 2 workers / fewer rows; I independent writers with configurations OF THEIR OWN (a Codec value per writer: zstd level 1-4 and concurrency, gzip levels -2..9, brotli quality 0-9 and window, lz4 levels, snappy, none; page buffer 1-64 KiB, data pages v1/v2, 1-3 row groups, default encodings plain/delta/dictionary, dictionary limit, statistics, bloom filters; most writers have a sibling with the same rows and options and another level of the same codec) in three phases - each alone after the process-wide pools were emptied (two GCs), all together, each alone again in another order with the pools as the others left them - the bytes and rows of a writer in phases 2 and 3 equal those of the writer alone, failures shrunk to a pair of writers and fewer rows (a note counts the sibling pairs whose bytes differ alone: the comparison can tell the levels apart); mixed = A+B+D+E+G at once. Each instance first computes the serial answer of the same work and compares bytes (sha256), canonical rows, page layout, index and bloom filter contents and pointer identity. A, E, G are also run alone with the buffer event sink installed; the traces are checked against the per-buffer reference counting automaton (and the extracted model). A case = one scenario instance; non-trivial = at least 2 worker goroutines ran and the compared output is non-empty; distinct by (scenario, GOMAXPROCS, seed, scale)."
 	scale := c.N(1, 2)
 	procs := []int{1, 2, 4, 16}
 	rounds := c.N(1, 5)
@@ -2712,12 +2805,17 @@ func run(c *core.Ctx) {
 			vmWrite(c)
 		}
 	}
-	order := []string{"A-lazy", "A-eager", "B-independent", "C-column-writers", "D-row-groups", "D-parent-pending", "E-async", "F-shared-schema", "G-retain-release", "mixed"}
+	order := []string{"A-lazy", "A-eager", "B-independent", "C-column-writers", "D-row-groups", "D-parent-pending", "E-async", "F-shared-schema", "G-retain-release", "H-row-shapes", "I-writer-configs", "mixed"}
 	sampled := 0
 	for round := 0; round < rounds; round++ {
 		for _, p := range procs {
 			for _, name := range order {
 				in := inst{Scenario: name, P: p, Seed: seedOf(), Scale: scale}
+				if isRaceChild && ((name == "H-row-shapes" && round > 0) || (name == "I-writer-configs" && (round > 0 || p != 4))) {
+					// under the race detector one instance shows what there is to
+					// see (a report does not need the accesses to collide in time)
+					continue
+				}
 				if name == "A-lazy" || name == "E-async" {
 					// the two scenarios that depend most on the schedule run twice
 					runInst(c, inst{Scenario: name, P: p, Seed: seedOf(), Scale: scale})
@@ -2762,6 +2860,10 @@ func replay(c *core.Ctx, raw json.RawMessage) {
 		in.P = 4
 	}
 	if in.Scenario == "D-parent-pending" && pReplay(c, in, raw) {
+		return
+	}
+	if isChild {
+		runInst(c, in)
 		return
 	}
 	// schedules differ from run to run: repeat the instance a few times
